@@ -187,6 +187,60 @@ static void outside(int op, long arg)
 	do_call(op, arg, "");
 	fwrite(out, 1, outlen, stdout);
 }
+/* ---- Crowd: far more fibres than any bounded history holds, all on one queue at the same time.  The oracle for this size
+ * is a set of tallies (the specification says what they must be); the scheduler is reset afterwards. ---- */
+typedef struct { fibre_t f; uint32_t due; int entries, woke; } cf_t;
+static cf_t *crowd;
+static long crowd_seq, crowd_lastwoke, crowd_inorder;
+static int crowd_body(fibre_t *f)
+{
+	cf_t *c = containerof(f, cf_t, f);
+	c->entries++;
+	if (fibre_timeout(c->due)) {
+		c->woke++;
+		if (c - crowd < crowd_lastwoke) crowd_inorder = 0;
+		crowd_lastwoke = c - crowd;
+		return PT_EXITED;
+	}
+	return PT_WAITING;
+}
+static void do_crowd(long n, uint32_t t0)
+{
+	fibre_verif_reset();
+	crowd = calloc(n, sizeof(cf_t));
+	crowd_lastwoke = -1; crowd_inorder = 1;
+	for (long i = 0; i < n; i++) { fibre_init(&crowd[i].f, crowd_body); crowd[i].due = t0 + 1000 + (uint32_t)i; }
+	/* A: everybody is made runnable; some of them twice more (last, first, one in the middle by the interrupt-safe call) */
+	for (long i = 0; i < n; i++) fibre_run(&crowd[i].f);
+	fibre_run(&crowd[n - 1].f); fibre_run(&crowd[0].f); fibre_run_atomic(&crowd[n / 2].f); fibre_run(&crowd[n - 2].f);
+	long a_total = 0, a_max = 0, a_extra = 0;
+	for (long i = 0; i < n; i++) fibre_scheduler_next(t0);
+	for (long i = 0; i < n; i++) { a_total += crowd[i].entries; if (crowd[i].entries > a_max) a_max = crowd[i].entries; }
+	for (int k = 0; k < 3; k++) { fibre_scheduler_next(t0 + 1); }
+	for (long i = 0; i < n; i++) a_extra += crowd[i].entries;
+	a_extra -= a_total;
+	/* B: everybody sleeps.  The last sleeper is killed (twice); one far down the timer queue is run by hand and sleeps again */
+	int kill1 = fibre_kill(&crowd[n - 1].f), kill2 = fibre_kill(&crowd[n - 1].f);
+	fibre_run(&crowd[n - 3].f);
+	fibre_scheduler_next(t0 + 2); fibre_scheduler_next(t0 + 2);
+	int b_entries = crowd[n - 3].entries;
+	/* C: time passes; everybody is due.  While they queue up to run, the one at the end of the run queue is run again */
+	uint32_t late = t0 + 1000 + (uint32_t)n + 5;
+	fibre_scheduler_next(late);
+	fibre_run(&crowd[n - 2].f);
+	for (long i = 0; i < n + 3; i++) fibre_scheduler_next(late + 1);
+	long c_woke = 0, c_max = 0;
+	for (long i = 0; i < n; i++) { c_woke += crowd[i].woke; if (crowd[i].woke > c_max) c_max = crowd[i].woke; }
+	fibre_verif_snapshot_t sn;
+	fibre_verif_snapshot(&sn);
+	printf("{\"e\":\"Crowd\",\"n\":%ld,\"a_total\":%ld,\"a_max\":%ld,\"a_extra\":%ld,\"kill\":[%d,%d],\"b_entries\":%d,\"c_woke\":%ld,\"c_max\":%ld,"
+	       "\"c_inorder\":%ld,\"killed\":[%d,%d],\"left\":[%u,%u,%u]}\n", n, a_total, a_max, a_extra, kill1, kill2, b_entries, c_woke, c_max,
+	       crowd_inorder, crowd[n - 1].entries, crowd[n - 1].woke, sn.nrunq, sn.ntimerq, sn.natomic);
+	fibre_verif_reset();
+	free(crowd); crowd = NULL;
+	for (int i = 1; i <= nf; i++) fibre_init(&fib[i].f, body);
+	(void)crowd_seq;
+}
 static void gen(long seed, int nexec, int nops, int n, uint32_t b, uint32_t s, long tmax)
 {
 	drv_srand(seed);
@@ -236,6 +290,7 @@ int main(void)
 		else if (drv_is(&c, "BKill")) { script[nscript].op = B_KILL; script[nscript++].arg = drv_arg(&c, 0); }
 		else if (drv_is(&c, "BTimeout")) { script[nscript].op = B_TIMEOUT; script[nscript++].arg = drv_arg(&c, 0); }
 		else if (drv_is(&c, "PassEnd")) { if (pass_t >= 0) do_pass(pass_t, c.tok[1]); pass_t = -1; }
+		else if (drv_is(&c, "Crowd")) do_crowd(drv_arg(&c, 0), (uint32_t)drv_arg(&c, 1));
 		else if (drv_is(&c, "Run")) outside(B_RUN, drv_arg(&c, 0));
 		else if (drv_is(&c, "RunAtomic")) outside(B_RUNATOMIC, drv_arg(&c, 0));
 		else if (drv_is(&c, "Kill")) outside(B_KILL, drv_arg(&c, 0));
